@@ -159,6 +159,8 @@ fn main() {
     let rounds: usize = args.get(2).and_then(|s| s.parse().ok()).unwrap_or(1);
     let offset: usize = args.get(3).and_then(|s| s.parse().ok()).unwrap_or(0);
     let which: usize = args.get(4).and_then(|s| s.parse().ok()).unwrap_or(0);
+    // dense: only the short single-word calls (keeps the shared splitter busiest per unit of time)
+    let dense: bool = args.get(5).map(|s| s == "dense").unwrap_or(false);
     // one set of interpreters, created once; the reference results are computed on it
     // sequentially before any other thread exists (history independence is the business of the
     // simulator's history layer; this layer is about interleavings)
@@ -168,7 +170,11 @@ fn main() {
     let lang_of = |c: Call| match c {
         Call::T2d(l, _) | Call::Rewrite(l, _, _) | Call::Stream(l, _, _) => l,
     };
-    let calls: Vec<Call> = CALLS.iter().copied().filter(|&c| shared.has(c) && (which >= 3 || lang_of(c) == which)).collect();
+    let calls: Vec<Call> = CALLS
+        .iter()
+        .copied()
+        .filter(|&c| shared.has(c) && (which >= 3 || lang_of(c) == which) && (!dense || matches!(c, Call::T2d(..))))
+        .collect();
     let expected: Vec<String> = calls.iter().map(|&c| shared.run(c)).collect();
     let expected = Arc::new(expected);
     let calls = Arc::new(calls);
